@@ -392,7 +392,7 @@ def conds(tier):
                                           P("sp", "int", 0, 3), P("er", "bool"), P("firstid", "int", None, None), P("wsel", "int", 0, len(WORDS_BR))],
                        fixed={"m": m, "n": n},
                        pre=[e1_wf_expr(m, n), "_h.cont_ok(%d, %d, [%s], [%s], disco)" % (m, n, ipn, lpn), "not disco or (wk < 2 and sp == 0)"] +
-                       (["wsel == (wk * 4 + wo * 3 + (7 if er else 0)) % 10 and wc == wo and sp == wk"] if q else ["wsel < 3 or (wo == 0 and wc == 0)"]),
+                       (["wsel == (wk * 4 + wo * 3 + (7 if er else 0)) % 10 and wc == wo and sp == (0 if disco else wk)"] if q else ["wsel < 3 or (wo == 0 and wc == 0)"]),
                        shard=["disco", "wk"] + (["er", "wo"] if not q else []) + (["lp1"] if big else []),
                        skip=lambda sf: sf["disco"] and sf["wk"] >= 2, timeout=600 if q else 3000, functions=FUNCS[:3]))
         cs.append(Cond("tiger-m%d-n%d" % (m, n), "harness.c01:tigerfile",
